@@ -39,11 +39,15 @@ func (c *c02Case) source() string {
 			used["gauge gf\n"] = true
 		case "settime":
 			used["gauge gt\n"] = true
+		case "concat-string", "strcat":
+			used["text tx\n"] = true
+		case "strcmp":
+			used["counter d by k\n"] = true
 		default:
 			used["counter d by k\n"] = true
 		}
 	}
-	for _, d := range []string{"gauge gi\n", "gauge gf\n", "gauge gt\n", "counter d by k\n"} {
+	for _, d := range []string{"gauge gi\n", "gauge gf\n", "gauge gt\n", "text tx\n", "counter d by k\n"} {
 		if used[d] {
 			sb.WriteString(d)
 		}
@@ -67,6 +71,8 @@ func (c *c02Case) source() string {
 			fmt.Fprintf(&sb, "  gi = strtol($w, %s)\n", e)
 		case "settime":
 			fmt.Fprintf(&sb, "  settime(%s)\n  gt = timestamp()\n", e)
+		case "concat-string":
+			fmt.Fprintf(&sb, "  tx = %s\n", e)
 		case "cond-cap":
 			fmt.Fprintf(&sb, "  $i %s %s {\n    d[\"cc%d\"]++\n  }\n", s.Op, gen.PrintExpr(s.E, 4), n)
 		case "cond":
@@ -76,6 +82,19 @@ func (c *c02Case) source() string {
 	sb.WriteString("}\n")
 	for _, cs := range conds {
 		sb.WriteString(cs)
+	}
+	// statements on a free-form string capture
+	var sblock []string
+	for n, s := range c.Stmts {
+		switch s.Pos {
+		case "strcat":
+			sblock = append(sblock, fmt.Sprintf("  tx = %s\n", gen.PrintExpr(s.E, 1)))
+		case "strcmp":
+			sblock = append(sblock, fmt.Sprintf("  $s %s %s {\n    d[\"sc%d\"]++\n  }\n", s.Op, gen.PrintExpr(s.E, 4), n))
+		}
+	}
+	if len(sblock) > 0 {
+		sb.WriteString("/^s (?P<s>\\S+)$/ {\n" + strings.Join(sblock, "") + "}\n")
 	}
 	return sb.String()
 }
@@ -266,6 +285,10 @@ var (
 	c02Ops    = []string{"+", "-", "*", "/", "%", "**"}
 )
 
+func c02SmallInt(rt *rapid.T) *gen.Expr {
+	return &gen.Expr{Op: "lit", Ty: gen.TInt, I: rapid.SampledFrom([]int64{1, 2, 3, 7, 10, 100}).Draw(rt, "si")}
+}
+
 func c02Lit(rt *rapid.T, wantFloat bool) *gen.Expr {
 	if wantFloat {
 		return &gen.Expr{Op: "lit", Ty: gen.TFloat, F: rapid.SampledFrom(c02Floats).Draw(rt, "flit")}
@@ -325,7 +348,7 @@ func TestC02(t *testing.T) {
 			n := rapid.IntRange(1, 3).Draw(rt, "nstmts")
 			foldable := 0
 			for i := 0; i < n; i++ {
-				pos := rapid.SampledFrom([]string{"assign-int", "assign-float", "addassign-int", "addassign-float", "key", "key", "cond", "cond-cap", "strtol-base", "settime", "partial-int", "partial-float", "partial-int"}).Draw(rt, "pos")
+				pos := rapid.SampledFrom([]string{"assign-int", "assign-float", "addassign-int", "addassign-float", "key", "key", "cond", "cond-cap", "strtol-base", "settime", "partial-int", "partial-float", "partial-int", "chain-float", "concat-string", "strcat", "strcmp"}).Draw(rt, "pos")
 				s := c02Stmt{Pos: pos}
 				capI := &gen.Expr{Op: "cap", Ty: gen.TInt, Name: "i"}
 				capF := &gen.Expr{Op: "cap", Ty: gen.TFloat, Name: "f"}
@@ -358,6 +381,38 @@ func TestC02(t *testing.T) {
 						s.E = &gen.Expr{Op: "bin", Ty: gen.TInt, Name: rapid.SampledFrom(c02Ops).Draw(rt, "pop2"), Args: []*gen.Expr{s.E, c02Lit(rt, false)}}
 					}
 					s.Pos = "assign-int"
+				case "chain-float":
+					// a Float capture followed by two or three INTEGER literals under one
+					// operator: regrouping the constants changes the rounding
+					op := rapid.SampledFrom([]string{"*", "+", "*", "-", "/"}).Draw(rt, "cop")
+					e := &gen.Expr{Op: "bin", Ty: gen.TFloat, Name: op, Args: []*gen.Expr{capF, c02SmallInt(rt)}}
+					for k := rapid.IntRange(1, 2).Draw(rt, "links"); k > 0; k-- {
+						e = &gen.Expr{Op: "bin", Ty: gen.TFloat, Name: op, Args: []*gen.Expr{e, c02SmallInt(rt)}}
+					}
+					s.E = e
+					s.Pos = "assign-float"
+				case "concat-string":
+					// a String capture followed by literals under +: concatenation, not addition
+					capW := &gen.Expr{Op: "cap", Ty: gen.TString, Name: "w"}
+					e := &gen.Expr{Op: "bin", Ty: gen.TString, Name: "+", Args: []*gen.Expr{capW, c02SmallInt(rt)}}
+					for k := rapid.IntRange(1, 2).Draw(rt, "links"); k > 0; k-- {
+						e = &gen.Expr{Op: "bin", Ty: gen.TString, Name: "+", Args: []*gen.Expr{e, c02SmallInt(rt)}}
+					}
+					s.E = e
+				case "strcat", "strcmp":
+					// a constant Float expression whose value prints with an exponent, where
+					// the checker converts it to a string
+					k := rapid.SampledFrom([]*gen.Expr{
+						{Op: "bin", Ty: gen.TFloat, Name: "*", Args: []*gen.Expr{{Op: "lit", Ty: gen.TFloat, F: 2.5}, {Op: "lit", Ty: gen.TInt, I: 1000000}}},
+						{Op: "bin", Ty: gen.TFloat, Name: "/", Args: []*gen.Expr{{Op: "bin", Ty: gen.TFloat, Name: "/", Args: []*gen.Expr{{Op: "lit", Ty: gen.TFloat, F: 1.0}, {Op: "lit", Ty: gen.TInt, I: 8}}}, {Op: "lit", Ty: gen.TInt, I: 100000}}},
+						{Op: "bin", Ty: gen.TFloat, Name: "+", Args: []*gen.Expr{{Op: "lit", Ty: gen.TFloat, F: 0.5}, {Op: "lit", Ty: gen.TInt, I: 2}}},
+					}).Draw(rt, "sk")
+					if pos == "strcat" {
+						s.E = &gen.Expr{Op: "bin", Ty: gen.TString, Name: "+", Args: []*gen.Expr{{Op: "cap", Ty: gen.TString, Name: "s"}, k}}
+					} else {
+						s.E = k
+						s.Op = rapid.SampledFrom([]string{"==", "!=", "<"}).Draw(rt, "scop")
+					}
 				case "partial-float":
 					k := c02Const(rt, true, 1)
 					op := rapid.SampledFrom(c02Ops).Draw(rt, "pop")
@@ -374,7 +429,7 @@ func TestC02(t *testing.T) {
 			}
 			nl := rapid.IntRange(1, 3).Draw(rt, "nlines")
 			for i := 0; i < nl; i++ {
-				c.Lines = append(c.Lines, rapid.SampledFrom([]string{"5 2.5 ff", "0 0.0 10", "3 1.5 7", "junk", "2 0.5 z"}).Draw(rt, "line"))
+				c.Lines = append(c.Lines, rapid.SampledFrom([]string{"5 2.5 ff", "0 0.0 10", "3 1.5 7", "junk", "2 0.5 z", "7 0.1 a", "1 9007199254740992.0 b", "s 2.5e+06", "s 1.25e-06", "s a", "s 2.5"}).Draw(rt, "line"))
 			}
 			f, res := runC02(c)
 			st.Eval()
